@@ -179,7 +179,14 @@ func (h *H) twoPeersRound(S, Hn *Node, ovh, round int) bool {
 			h.o.Monitor("c14-tell-never-returns", desc, fmt.Sprintf("two peers: the message to the refusing peer was dead-lettered after %.0f ms but the Tell had not returned 10 s later", dlAfter.Seconds()*1000))
 		}
 		h.o.Stats["two-peers-dead-letter-ms"] += int(dlAfter.Milliseconds())
-		_ = tellDur
+		if returned {
+			// the Tell has returned: its mailbox is idle, the back-off counter must be back at 0 ...
+			h.mailboxAtRest(S, deadAddr, fmt.Sprintf("two-peers/limit%d/round%d", lim, round))
+			if okc {
+				// ... and it slept `lim` times on the way: not less than the lower ends of the jitter intervals (Backoff.v)
+				h.o.Case("backoff-enqueue-time", lim > 0, lib.L(lib.N(9), mailboxCfg.term(), lib.NI(lim), lib.N(uint64(tellDur))), lib.Bool(true))
+			}
+		}
 	}
 	// R's model case: one call, one refused dial per connection-failed event, no connection ever made
 	{
